@@ -1,6 +1,7 @@
 """C12 — counters, callbacks and the recorded path tell one consistent story."""
 from ..gen import Gen
 from ..unit import run_unit
+from .. import camp_props
 from ..units.loop import Loop
 
 PROP_FILES = ["props/C12.v"]
@@ -11,3 +12,4 @@ def run(rep, tier, seed, scratch):
     g = Gen(seed)
     u = Loop()
     run_unit(rep, u, u.gen(g, tier), scratch)
+    camp_props.run_single(rep, 'C12', tier, seed, 40, 300, allow={'collect_path': True})
